@@ -226,7 +226,8 @@ pub(crate) fn is_directive_stmt(stmt: &Stmt) -> bool {
 }
 
 /// The first `await` / `yield` that belongs to the function the expression is written in
-/// (nested functions and classes have their own).
+/// (nested functions have their own; of a class only the heritage and the computed keys are
+/// evaluated in that function).
 pub(crate) fn find_await_or_yield(expr: &Expr) -> Option<Span> {
     struct Finder(Option<Span>);
     impl Visit for Finder {
@@ -238,7 +239,22 @@ pub(crate) fn find_await_or_yield(expr: &Expr) -> Option<Span> {
         }
         fn visit_function(&mut self, _: &Function) {}
         fn visit_arrow_expr(&mut self, _: &ArrowExpr) {}
-        fn visit_class(&mut self, _: &Class) {}
+        fn visit_class(&mut self, class: &Class) {
+            class.super_class.visit_with(self);
+            class.body.iter().for_each(|member| match member {
+                ClassMember::Method(ClassMethod { key, .. })
+                | ClassMember::ClassProp(ClassProp { key, .. }) => {
+                    if let PropName::Computed(key) = key {
+                        key.visit_with(self);
+                    }
+                }
+                ClassMember::AutoAccessor(AutoAccessor {
+                    key: Key::Public(PropName::Computed(key)),
+                    ..
+                }) => key.visit_with(self),
+                _ => {}
+            });
+        }
     }
     let mut finder = Finder(None);
     expr.visit_with(&mut finder);
